@@ -271,6 +271,52 @@ func (fe *forgeEnv) eval(tape []byte, legitHdr map[string]bool, legitContent map
 			}
 		}
 	}
+	// the write path: a handle opened for reading and writing loads the existing content into its write buffer; when that
+	// load fails verification nothing of it may reach the tape through a later write or the close of the same handle
+	// (the writer holds the signing key: what it flushes is signed)
+	if in2.wo != nil {
+		for _, row := range rows {
+			if row.Deleted != 0 || row.Typeflag != int64(tar.TypeReg) || row.Size == 0 {
+				continue
+			}
+			n := row.Name
+			if !strings.HasPrefix(n, "/") {
+				n = "/" + n
+			}
+			done := make(chan map[string]interface{}, 1)
+			go func() {
+				defer func() {
+					if x := recover(); x != nil {
+						done <- map[string]interface{}{"name": row.Name, "via": "write", "read": fmt.Sprintf("PANIC %v", x)}
+					}
+				}()
+				st0, _ := os.Stat(in2.drive)
+				f, err := in2.s.OpenFile(n, os.O_RDWR, 0o644)
+				if err != nil {
+					done <- nil
+					return
+				}
+				_, w1 := f.Write([]byte("x"))
+				_, w2 := f.Write([]byte("y"))
+				cerr := f.Close()
+				st1, _ := os.Stat(in2.drive)
+				if w1 != nil && st0 != nil && st1 != nil && st1.Size() != st0.Size() {
+					done <- map[string]interface{}{"name": row.Name, "via": "write", "flushed_after_failed_load": st1.Size() - st0.Size(),
+						"first_write": w1.Error(), "second_write": fmt.Sprint(w2), "close": fmt.Sprint(cerr)}
+					return
+				}
+				done <- nil
+			}()
+			select {
+			case x := <-done:
+				if x != nil {
+					badc = append(badc, x)
+				}
+			case <-time.After(8 * time.Second):
+				badc = append(badc, map[string]interface{}{"name": row.Name, "via": "write", "read": "HANG"})
+			}
+		}
+	}
 	if len(badc) > 0 {
 		res["forged_content_returned"] = badc
 	}
